@@ -6,10 +6,10 @@ from vf.gen import q_bare, TIME_DIM
 
 
 def seed_form(r, seed):
-    """the same seed as one of the integer-like objects a caller may hold (an element of numpy.arange, a numpy scalar...)"""
+    """the same seed as one of the integer-like objects a caller may hold (an element of numpy.arange, a numpy scalar, its decimal digits...)"""
     if seed is None:
         return None
-    forms = ["int", "int", "int64", "uint64", "0-d array"]
+    forms = ["int", "int", "int64", "uint64", "0-d array", "digits"]
     if seed < 2 ** 31:
         forms += ["int32"]
     if seed < 2 ** 32:
@@ -21,6 +21,8 @@ def seed_form(r, seed):
         return int(seed)
     if f == "float":
         return float(seed)
+    if f == "digits":
+        return "".join(["%d" % int(seed)])         # the number as a string of digits (a value read from a text file, a command line)
     if f == "0-d array":
         return np.array(int(seed))
     return getattr(np, f)(seed)
